@@ -519,3 +519,4 @@ def walk(chk, repo):
 # added rules (appended to the explanation the evidence file carries)
 EXPLANATION += (" " + 'Added during the build (DESIGN.md 4.31, second table): to_operational by abstract execution against a model of the ESC state machine (146 runs: start state x error x target x completion delay x refusing terminal, 1500-poll steps); the path rules apply when the walk is the loop they know.')
 EXPLANATION += (' Added after wave 9: the state machine model also has terminals whose status code reads 0 while the error flag is set, and terminals that report the requested state together with the error flag.')
+EXPLANATION += (' Added after wave 10: the registers get_state / set_state access are read off the datagrams they send in a recording execution, through whatever wrappers.')
